@@ -17,6 +17,16 @@ def main(argv):
     prop_id, tier, seed, shard, nshards, outfile = argv
     seed, shard, nshards = int(seed), int(shard), int(nshards)
     warnings.filterwarnings("ignore")
+    # an address space ceiling per shard: a defect that makes the code under test
+    # ask for an absurd array then shows as a MemoryError inside the case (which
+    # the property's check judges) instead of the kernel killing the shard
+    try:
+        import resource
+
+        lim = int(os.environ.get("VERIF_SHARD_AS_GB", "12")) << 30
+        resource.setrlimit(resource.RLIMIT_AS, (lim, lim))
+    except Exception:  # noqa - not available: carry on without
+        pass
     from . import harness
 
     try:
